@@ -44,13 +44,13 @@ func c02Arbitrary() *c02State {
 	st := &c02State{}
 	maxBuckets, maxPass, rtCounts := 2, int64(1), 2
 	if rt.Tier() > 0 {
-		maxBuckets, maxPass, rtCounts = 3, 8, 4
+		maxBuckets, maxPass, rtCounts = 3, 1, 4
 	}
 	if rt.Tier() > 0 {
 		st.size = rt.Choose("buckets", maxBuckets) + 1
 		rtCounts = 3 // 0..2 latency samples per bucket
 		if st.size == 3 {
-			rtCounts, maxPass = 2, 1 // three buckets: 0..1 latency samples and 0..1 passes per bucket
+			rtCounts = 2 // three buckets: 0..1 latency samples per bucket
 		}
 	} else {
 		st.size = 2 // quick: two buckets (one visible under IgnoreCurrentBucket, both after a bucket boundary)
@@ -132,7 +132,7 @@ func (st *c02State) capacity() float64 {
 }
 
 //verif:entry tier=quick,thorough steps=400000 recycle=1 cover=shed,admitted,hot,overloaded,idle,cooledoff
-//verif:doc Allow from an arbitrary state: 2 buckets (quick) / 1..3 (thorough) of 100 ms with symbolic pass counts (0..1 quick / 0..8 thorough per bucket), latency sums (0..2^20) over 0..1 / 0..2 samples per bucket (0..1 with 3 buckets), flying in [0,2^20], avgFlying in [0,2^20], droppedRecently, overloadTime, cpu 0..1000, threshold 1..999, clock symbolic. Shed only if (cpu >= threshold or still hot) and flying > 10% of capacity; with nothing in flight never shed; in-flight accounting exact.
+//verif:doc Allow from an arbitrary state: 2 buckets (quick) / 1..3 (thorough) of 100 ms with symbolic pass counts (0..1 per bucket; 0..8 made the capacity product non-linear and did not finish), latency sums (0..2^20) over 0..1 / 0..2 samples per bucket (0..1 with 3 buckets), flying in [0,2^20], avgFlying in [0,2^20], droppedRecently, overloadTime, cpu 0..1000, threshold 1..999, clock symbolic. Shed only if (cpu >= threshold or still hot) and flying > 10% of capacity; with nothing in flight never shed; in-flight accounting exact.
 func Verif_C02_Allow() {
 	st := c02Arbitrary()
 	s := st.s
@@ -253,4 +253,56 @@ func Verif_C02_WindowScale() {
 	}
 	rt.Assert(s.windowScale == want, "window scale = buckets per second / 1000 (real quotient)")
 	rt.Assert(s.windowScale > 0, "the window scale is never zero: the capacity estimate does not collapse for long buckets")
+}
+
+//verif:entry tier=quick,thorough steps=400000 recycle=1 cover=peak,floor,fastest,nolatency
+//verif:doc The two factors of the capacity estimate on their own (linear, so the pass counts can be symbolic): 2..3 buckets of 100 ms with symbolic pass counts 0..1000 and latency sums 0..2^20 over 0..2 samples per bucket, window offset and clock symbolic: maxPass() is the largest pass count among the buckets the window currently shows, at least 1; minRt() is the smallest rounded average latency among them, 1000 ms when none has a sample.
+func Verif_C02_Peak() {
+	st := &c02State{}
+	st.size = 2 + rt.Choose("buckets", 2)
+	st.t0 = rt.Now()
+	s := NewAdaptiveShedder(WithBuckets(st.size), WithWindow(time.Duration(st.size)*c02Interval)).(*adaptiveShedder)
+	st.offset = rt.Choose("offset", st.size)
+	s.passCounter.VerifSetOffset(st.offset)
+	s.rtCounter.VerifSetOffset(st.offset)
+	pb, rb := s.passCounter.VerifBuckets(), s.rtCounter.VerifBuckets()
+	for i := 0; i < st.size; i++ {
+		ps := rt.Int("passSum", 0, 1000)
+		cnt := int64(rt.Choose("rtCount", 3))
+		rs := rt.Int("rtSum", 0, 1<<20)
+		pb[i].Sum, pb[i].Count = ps, ps
+		rb[i].Sum, rb[i].Count = rs, cnt
+		st.passSum = append(st.passSum, ps)
+		st.rtSum = append(st.rtSum, rs)
+		st.rtCnt = append(st.rtCnt, cnt)
+	}
+	st.now = st.t0 + rt.Int("elapsed_ns", 0, 1<<40)
+	rt.SetNow(st.now)
+	peak := int64(1)
+	minRt := 1000.0
+	sampled := false
+	for _, i := range st.visible() {
+		if st.passSum[i] > peak {
+			peak = st.passSum[i]
+		}
+		if st.rtCnt[i] > 0 {
+			sampled = true
+			avg := math.Round(float64(st.rtSum[i]) / float64(st.rtCnt[i]))
+			if avg < minRt {
+				minRt = avg
+			}
+		}
+	}
+	if peak > 1 {
+		rt.Cover("peak")
+	} else {
+		rt.Cover("floor")
+	}
+	rt.Assert(s.maxPass() == peak, "the peak is the largest per-bucket pass count the window currently shows, and at least 1")
+	if sampled {
+		rt.Cover("fastest")
+	} else {
+		rt.Cover("nolatency")
+	}
+	rt.Assert(s.minRt() == minRt, "the latency factor is the smallest rounded average latency among the visible buckets, 1000 ms when there is none")
 }
